@@ -16,6 +16,11 @@ class Panic(Exception):
     pass
 
 
+class Return(Exception):
+    def __init__(self, value):
+        self.value = value
+
+
 class Mat:
     def __init__(self, name, rows, cols):
         self.name, self.rows, self.cols = name, rows, cols
@@ -163,6 +168,13 @@ class Machine:
                 return
         raise NoEval("store")
 
+    def call(self, body):
+        """run a function body; value of the tail expression or of the `return` taken"""
+        try:
+            return self.block(body)
+        except Return as r:
+            return r.value
+
     # ---------------- statements
     def bind(self, pat, val):
         t = pat[0]
@@ -213,7 +225,7 @@ class Machine:
                         self.block(e[2])
                     last = None
                 elif is_node(e) and e[0] == "ret":
-                    raise NoEval("early return")
+                    raise Return(self.E(e[1]) if e[1] is not None else None)
                 else:
                     last = self.E(e)
             else:
